@@ -177,11 +177,16 @@ Lemma chars_handles_ok_cons c t sh :
   chars_handles_ok (c :: t) sh = true -> char_ok sh c /\ chars_handles_ok t (char_end_handle sh c) = true.
 Proof.
   cbn [chars_handles_ok]. cbv zeta. intros H.
-  repeat (apply andb_true_iff in H; destruct H as [H ?]).
+  apply andb_true_iff in H. destruct H as [H H6].
+  apply andb_true_iff in H. destruct H as [H H5].
+  apply andb_true_iff in H. destruct H as [H H4].
+  apply andb_true_iff in H. destruct H as [H H3].
+  apply andb_true_iff in H. destruct H as [H1 H2].
   split; auto. unfold char_ok. cbv zeta.
-  repeat split; try (apply N.ltb_lt; assumption); try (apply N.leb_le; assumption).
+  apply N.leb_le in H1. apply N.ltb_lt in H3, H4, H5.
+  repeat split; auto.
   destruct (c_handle c); auto.
-  apply andb_true_iff in H3. destruct H3 as [Ha Hb]. split; [apply N.ltb_lt; auto|].
+  apply andb_true_iff in H2. destruct H2 as [Ha Hb]. split; [apply N.ltb_lt; auto|].
   apply orb_true_iff in Hb. destruct Hb as [Hb|Hb]; [left; apply N.eqb_eq; auto|right; apply N.ltb_lt; auto].
 Qed.
 
